@@ -220,6 +220,12 @@ type runResult struct {
 }
 
 func runInproc(prop InprocProp, tier string, seed int64, scratch string, only int) runResult {
+	self, _ := os.Executable()
+	return runInprocWith(self, nil, prop, tier, seed, scratch, only)
+}
+
+// runInprocWith runs the workers from another binary (e.g. a -race build) with extra environment.
+func runInprocWith(self string, extraEnv []string, prop InprocProp, tier string, seed int64, scratch string, only int) runResult {
 	nshards := runtime.NumCPU()
 	if nshards > 16 {
 		nshards = 16
@@ -231,7 +237,6 @@ func runInproc(prop InprocProp, tier string, seed int64, scratch string, only in
 	if n < nshards {
 		nshards = n
 	}
-	self, _ := os.Executable()
 	var mu sync.Mutex
 	var res runResult
 	var wg sync.WaitGroup
@@ -249,6 +254,7 @@ func runInproc(prop InprocProp, tier string, seed int64, scratch string, only in
 					args = append(args, fmt.Sprint(only))
 				}
 				cmd := exec.Command(self, args...)
+				cmd.Env = append(os.Environ(), extraEnv...)
 				errf, _ := os.Create(progf + ".stderr")
 				cmd.Stderr = errf
 				cmd.Stdout = errf
